@@ -290,6 +290,11 @@ Definition race_engine_with (d : declaration) (t : access_table) (c : val) : val
   | VL [VN 1; VB f1; VN w1; VB f2; VN w2; VB detail] =>
       let s1 := string_of_bytes f1 in
       let s2 := string_of_bytes f2 in
+      (* C36-1a seen by the race detector: ClientsWg.Add(1) runs inside the handler (attachClient), so
+         it can be concurrent with ClientsWg.Wait() in Listeners.CloseAll (sync.WaitGroup misuse,
+         reported as a race on the WaitGroup's internal state, which is not a field of the table) *)
+      let wg a b := String.eqb a "Server.attachClient" && String.eqb b "listeners.Listeners.CloseAll" in
+      if wg s1 s2 || wg s2 s1 then verdict 3 (tag "race") true [VB (bytes_of_str "KF_C33_wg_add_wait"); VB f1; VB f2] else
       match common (kf_of_fn d t s1) (kf_of_fn d t s2) with
       | k :: _ => verdict 3 (tag "race") true [VB (bytes_of_str k); VB f1; VB f2]
       | [] => verdict 1 (tag "race") true [VB f1; VB f2; VB detail]
